@@ -86,6 +86,7 @@ type Obs struct {
 	Log             string // Server.ErrorLog output
 	State           string // Conn.VerifState() when the script ran dry ("" if it never did)
 	Panic           string // a panic that escaped the handler (never expected)
+	Leak            string // synctest complaint: goroutines of the connection still blocked after everything settled
 	ReadsAfterClose int
 }
 
@@ -101,14 +102,11 @@ func RunS(cfg Config, be *Backend, segs [][]byte, term string) *Obs {
 			o.State = conn.VerifState()
 		}
 	}
-	func() {
-		defer func() {
-			if p := recover(); p != nil {
-				o.Panic = fmt.Sprint(p)
-			}
-		}()
+	o.Leak, o.Panic = Bubble(func() {
 		o.Err = srv.VerifServeConn(sc, func(c *smtp.Conn) { conn = c })
-	}()
+		Wait() // let delivery goroutines that are still running finish (or block for good)
+		o.Trace = be.Trace()
+	})
 	sc.mu.Lock()
 	o.Writes = sc.Writes
 	o.Closed = sc.Closed
@@ -132,7 +130,6 @@ func RunS(cfg Config, be *Backend, segs [][]byte, term string) *Obs {
 		}
 		o.ReplyAt = append(o.ReplyAt, at)
 	}
-	o.Trace = be.Trace()
 	o.Log = log.String()
 	return o
 }
@@ -166,3 +163,15 @@ func Calls(tr []Event) string {
 
 // Q quotes octets for messages.
 func Q(b []byte) string { return fmt.Sprintf("%q", b) }
+
+// Sanity reports failures every check cares about: a panic that escaped the
+// connection handler, or goroutines of the connection that never finish.
+func (o *Obs) Sanity(prefix, desc string) *Finding {
+	if o.Panic != "" {
+		return F(prefix+"-panic", "%s: the connection handler panicked: %s", desc, o.Panic)
+	}
+	if o.Leak != "" {
+		return F(prefix+"-goroutine-leak", "%s: goroutines serving the connection never finished: %s", desc, o.Leak)
+	}
+	return nil
+}
